@@ -192,12 +192,61 @@ def r15_4(ctx):
     ctx.end()
 
 
+EXEMPT_LINKS = {
+    ("BaseComponent", "error"): "advanced variable of the quality model; no base log depends on it",
+    ("BaseWorker", "quality_skill_mean_map"): "quality model input; not part of the saved format (only feeds BaseComponent.error)",
+    ("BaseWorker", "quality_skill_sd_map"): "quality model input; not part of the saved format (only feeds BaseComponent.error)",
+    ("BaseWorkflow", "critical_path_length"): "recomputed by the PERT phase of every step before it is read (C12 R12.3)",
+}
+
+
+def r15_6(ctx):
+    """What the step code reads but the readers do not pass back (a derived back-link such as task.parent_workflow) must be
+    re-established on the resume path itself: by initialize(state_info=False, log_info=False), which simulate() calls first."""
+    ctx.begin("R15.6", "links the step code reads that are not in the saved format are re-established by initialize(False, False)", floor=1)
+    from ..initflags import init_store_sets
+    J = JsonTables(ctx)
+    f0, sets = init_store_sets(ctx)
+    resume_stores = set(sets[(False, False)])
+    reads = {}
+    for g in sim_reach(ctx, precise=True):
+        for e in ctx.eff.of(g):
+            if e.kind == "read" and e.cls and e.cls in ctx.repo.model_classes:
+                owner = ctx.types.field_owner(e.cls, e.attr) or e.cls
+                reads.setdefault((owner, e.attr), e)
+            elif e.kind == "read" and not e.cls:
+                # receiver without a static type (a helper's parameter): every model class that declares the field
+                for mc in ctx.repo.model_classes:
+                    if ctx.types.field_type(mc, e.attr) is not None and (ctx.types.field_owner(mc, e.attr) or mc) == mc:
+                        reads.setdefault((mc, e.attr), e)
+    n = 0
+    for (c, a), e in sorted(reads.items()):
+        passed = set()
+        for b in [c] + list(ctx.repo.subclasses(c)) + list(ctx.repo.mro(c)):
+            passed |= set(J.read.get(b, {}) or {})
+            passed |= set(J.read_keys.get(b, set()) or set())
+        if a in passed or any(k[1] == a for k in J.relink) or ctx.repo.lookup_method(c, a) is not None:
+            continue
+        if c == PROJECT:
+            continue   # the project's own keys: R16.1 / R15.4
+        if (c, a) in EXEMPT_LINKS:
+            continue
+        n += 1
+        ctx.instance(f"{c}.{a}", sample={"read_at": e.loc, "re-established": (c, a) in resume_stores})
+        if (c, a) not in resume_stores:
+            ctx.violation(f"not-reestablished:{c}.{a}", e.loc, f"{c}.{a} is read by the step code ({e.func.qualname}) but is neither passed back by the JSON readers nor set by "
+                          "initialize(state_info=False, log_info=False): a run that is paused, saved, loaded and resumed works with a missing link")
+    ctx.require(n >= 1, "no derived link found (expected at least task.parent_workflow)")
+    ctx.end()
+
+
 def run(ctx):
     r15_1(ctx)
     r15_2(ctx)
     r15_3(ctx)
     r15_4(ctx)
     r15_5(ctx)
+    r15_6(ctx)
     from ..initflags import group_rule, separation_rule
     group_rule(ctx, "R8.7", "logs", "a resumed run continues with some logs wiped")
     separation_rule(ctx, "R8.8")
